@@ -1,5 +1,5 @@
 """C04 Spans never split a UTF-8 code point on str input."""
-from props import cg, rt
+from props import cg, gen, rt
 
 ENGINE = 'mirfacts+witness+genscan'
 EXPLANATION = ('Clause claim on type-checked MIR: (a) UTF-8 acceptance gates: patterns and subpatterns that are not Properties::is_utf8() are rejected in str mode, before the compile_error gate; '
@@ -24,4 +24,5 @@ def run(ctx, rep):
         rt.rule_witnesses(rep, ctx)
     cg.cg_controls(rep, ctx, [('M-C04a', cg.rule_utf8_gate)])
     rep.trusted += ['rustc nightly MIR', 'engines/mirfacts', 'regex-syntax Properties::is_utf8; regex-automata UTF-8 NFA compilation']
-    pass
+    gen.rules_c04(ctx, rep)
+    gen.rule_must_reject(ctx, rep, gen.configs(ctx), ['non_utf8_in_str_mode'], floor=8)
